@@ -401,7 +401,9 @@ def p6(model: Model, rep: Report):
     C = model.cls("IRepetitionCodeDescription")
     for name in ("get_gate_sequence_indices", "get_park_sequence_indices", "get_active_ancilla_indices"):
         f = C.resolve(name)
-        ev = Evaluator(model, inline_methods=False)
+        # small pure helpers of the description class (e.g. a shared range guard) are seen through; the abstract interface stays symbolic
+        ev = Evaluator(model, inline_methods=True, opaque={x.qualname for x in model.all_functions() if x.cls is None or x.cls.name != "IRepetitionCodeDescription"
+                                                           or x.name in ("qubit_ids", "gate_sequences", "map_qubit_id_to_circuit_index")})
         ps = [p for p in PathEnumerator(ev).function_paths(f, self_cls=C) if p.exit == "return"]
         s = sym(f.self_name)
         i = sym([n for n in f.param_names if n != f.self_name][0])
@@ -426,6 +428,8 @@ def p6(model: Model, rep: Report):
 
         def is_edges(dom):
             d = devar(dom)
+            if d == ("attr", layer, "edge_ids"):
+                return True
             if d[0] == "call" and d[1] == ("fn", "array_manipulation.unique_in_order"):
                 d = devar((list(d[2]) + [x for _, x in d[3]])[0])
             return d[0] == "comp" and len(d[3]) == 1 and not d[3][0][1] and d[3][0][0] in (("attr", layer, "_gate_operations"), ("attr", layer, "gate_operations")) \
